@@ -17,13 +17,6 @@ set_option linter.unusedSimpArgs false
 namespace Panqec.Planar3DCode
 open Panqec.Cubic3D
 
-/-- the independent family: vertices, xy faces with `z = 0`, yz faces, xz faces -/
-def rankFamily (Lx Ly Lz : Nat) : List Coord :=
-  grid (range2 2 (2 * (Lx : Int))) (range2 0 (2 * (Ly : Int))) (range2 0 (2 * (Lz : Int))) ++
-  grid (range2 1 (2 * (Lx : Int) + 1)) (range2 1 (2 * (Ly : Int) - 1)) [0] ++
-  grid (range2 2 (2 * (Lx : Int))) (range2 1 (2 * (Ly : Int) - 1)) (range2 1 (2 * (Lz : Int) - 1)) ++
-  grid (range2 1 (2 * (Lx : Int) + 1)) (range2 0 (2 * (Ly : Int))) (range2 1 (2 * (Lz : Int) - 1))
-
 theorem rankFamily_sublist {Lx Ly Lz : Nat} (hLz : 1 ≤ Lz) :
     (rankFamily Lx Ly Lz).Sublist (stabs Lx Ly Lz) := by
   unfold rankFamily stabs
